@@ -1,6 +1,7 @@
 package gosym
 
 import (
+	"context"
 	"bufio"
 	"fmt"
 	"io"
@@ -32,7 +33,7 @@ type Solver struct {
 	bin       []string
 	cmd       *exec.Cmd
 	in        io.WriteCloser
-	out       *bufio.Reader
+	lines     chan solverLine
 	defined   map[int]bool
 	declared  map[string]bool
 	nDefs     int
@@ -43,6 +44,14 @@ type Solver struct {
 	lastModel map[string]uint64 // model of a one-shot fallback answer
 }
 
+type solverLine struct {
+	s   string
+	err error
+}
+
+// solverMemMB caps the address space of every solver process (z3 -memory, ulimit -v for the others).
+const solverMemMB = 3000
+
 func NewSolver(bin []string, timeoutMs int, stats *SolverStats, log io.Writer) *Solver {
 	s := &Solver{bin: bin, timeoutMs: timeoutMs, stats: stats, log: log}
 	s.start()
@@ -50,7 +59,11 @@ func NewSolver(bin []string, timeoutMs int, stats *SolverStats, log io.Writer) *
 }
 
 func (s *Solver) start() {
-	s.cmd = exec.Command(s.bin[0], s.bin[1:]...)
+	args := append([]string(nil), s.bin[1:]...)
+	if strings.Contains(s.bin[0], "z3") {
+		args = append(args, fmt.Sprintf("-memory:%d", solverMemMB))
+	}
+	s.cmd = exec.Command(s.bin[0], args...)
 	in, _ := s.cmd.StdinPipe()
 	out, _ := s.cmd.StdoutPipe()
 	s.cmd.Stderr = nil
@@ -58,17 +71,28 @@ func (s *Solver) start() {
 		panic(fmt.Sprintf("cannot start solver %v: %v", s.bin, err))
 	}
 	s.in = in
-	s.out = bufio.NewReaderSize(out, 1<<16)
+	rd := bufio.NewReaderSize(out, 1<<16)
+	ch := make(chan solverLine, 64)
+	s.lines = ch
+	go func() {
+		for {
+			l, err := rd.ReadString('\n')
+			l = strings.TrimSpace(l)
+			if l != "" || err != nil {
+				ch <- solverLine{l, err}
+			}
+			if err != nil {
+				close(ch)
+				return
+			}
+		}
+	}()
 	s.defined = map[int]bool{}
 	s.declared = map[string]bool{}
 	s.nDefs = 0
 	s.dead = false
 	if strings.Contains(s.bin[0], "z3") {
-		inc := s.timeoutMs
-		if inc > 4000 {
-			inc = 4000 // the incremental core gets a short budget; hard queries go to fresh one-shot solvers
-		}
-		s.send(fmt.Sprintf("(set-option :timeout %d)", inc))
+		s.send(fmt.Sprintf("(set-option :timeout %d)", s.incTimeoutMs()))
 	}
 	s.send("(set-option :produce-models true)")
 }
@@ -124,17 +148,31 @@ func (s *Solver) define(t *Term) {
 	s.send(fmt.Sprintf("(define-fun t%d () %s %s)", t.id, t.sort.SMT(), t.body()))
 }
 
+var errSolverWatchdog = fmt.Errorf("solver watchdog")
+
+// readLine waits for the next non-empty line; the watchdog bounds the wait in wall-clock time because
+// z3's own :timeout is not checked inside every preprocessing step.
 func (s *Solver) readLine() (string, error) {
-	for {
-		l, err := s.out.ReadString('\n')
-		if err != nil {
-			return strings.TrimSpace(l), err
+	wd := time.Duration(s.incTimeoutMs()+3000) * time.Millisecond
+	t := time.NewTimer(wd)
+	defer t.Stop()
+	select {
+	case l, ok := <-s.lines:
+		if !ok {
+			return "", io.EOF
 		}
-		l = strings.TrimSpace(l)
-		if l != "" {
-			return l, nil
-		}
+		return l.s, l.err
+	case <-t.C:
+		return "", errSolverWatchdog
 	}
+}
+
+func (s *Solver) incTimeoutMs() int {
+	inc := s.timeoutMs
+	if inc > 4000 || inc <= 0 {
+		inc = 4000 // the incremental core gets a short budget; hard queries go to fresh one-shot solvers
+	}
+	return inc
 }
 
 // Check decides the conjunction of lits (Bool terms).
@@ -171,7 +209,10 @@ func (s *Solver) Check(lits []*Term) SatResult {
 	if s.log != nil {
 		io.WriteString(s.log, "; -> "+line+"\n")
 	}
-	if err != nil {
+	if err == errSolverWatchdog {
+		s.restart()
+		line = "unknown"
+	} else if err != nil {
 		atomic.AddInt64(&s.stats.Errors, 1)
 		s.restart()
 		return Unknown
@@ -252,10 +293,13 @@ func (s *Solver) oneShot(lits []*Term) (SatResult, bool) {
 	if secs < 10 {
 		secs = 10
 	}
+	lim := fmt.Sprintf("ulimit -v %d; exec \"$@\"", solverMemMB*1024)
 	for _, bin := range [][]string{{"z3", fmt.Sprintf("-T:%d", secs), "-in"}, {"cvc5", "--produce-models", fmt.Sprintf("--tlimit=%d", secs*1000), "--lang=smt2", "-"}, {"z3-new", fmt.Sprintf("-T:%d", secs), "-in"}} {
-		cmd := exec.Command(bin[0], bin[1:]...)
+		ctx, cancel := context.WithTimeout(context.Background(), time.Duration(secs+5)*time.Second)
+		cmd := exec.CommandContext(ctx, "sh", append([]string{"-c", lim, "sh"}, bin...)...)
 		cmd.Stdin = strings.NewReader("(set-option :produce-models true)\n" + script)
 		out, _ := cmd.Output()
+		cancel()
 		txt := string(out)
 		if s.log != nil {
 			io.WriteString(s.log, "; one-shot "+bin[0]+" -> "+strings.SplitN(strings.TrimSpace(txt), "\n", 2)[0]+"\n")
